@@ -180,6 +180,13 @@ var (
 	}()
 
 	c16BaseTime = time.Unix(1_700_000_000, 0)
+
+	c16BlindPoint = func() *btcec.PublicKey {
+		h := sha256.Sum256([]byte("c16 blinding point"))
+		k, _ := btcec.PrivKeyFromBytes(h[:])
+
+		return k.PubKey()
+	}()
 )
 
 // Attempt kinds.
@@ -259,6 +266,23 @@ func c16MakeAttempt(hash lntypes.Hash, s c16Spec) *paymentsdb.HTLCAttemptInfo {
 			lnwire.MilliSatoshi(s.Total), c16Addr(s.Addr),
 		)
 	}
+	// Hop fields outside the admission rules, derived from the attempt id
+	// (no draw of their own): metadata and custom records of the final
+	// hop, and - as in every real blinded route - the blinding point on
+	// the introduction hop, which for a one-hop blinded path is the final
+	// hop itself.
+	if s.ID%3 == 0 {
+		final.Metadata = []byte{9, byte(s.ID)}
+	}
+	if s.ID%5 == 0 {
+		final.CustomRecords = record.CustomSet{
+			65536 + s.ID%7: []byte{1, byte(s.ID)},
+		}
+	}
+	blinded := s.Kind == c16Blinded || s.Kind == c16BlindedMPP
+	if blinded && s.Hops != 2 {
+		final.BlindingPoint = c16BlindPoint
+	}
 	hops := []*route.Hop{final}
 	if s.Hops == 2 {
 		first := &route.Hop{
@@ -267,8 +291,9 @@ func c16MakeAttempt(hash lntypes.Hash, s c16Spec) *paymentsdb.HTLCAttemptInfo {
 			OutgoingTimeLock: 95,
 			AmtToForward:     lnwire.MilliSatoshi(s.Amt),
 		}
-		if s.Kind == c16Blinded || s.Kind == c16BlindedMPP {
+		if blinded {
 			first.EncryptedData = []byte{1, 3, 3}
+			first.BlindingPoint = c16BlindPoint
 		}
 		hops = []*route.Hop{first, final}
 	}
@@ -337,6 +362,51 @@ type c16Att struct {
 	State    int
 	Preimage lntypes.Preimage
 	FailWhy  int
+	// RouteFP is a digest of every hop field the stores persist: what
+	// FetchPayment returns for an attempt must be the route that was
+	// registered (added after seeded change C16e: the SQL store lost the
+	// total amount of a blinded hop that is introduction and final hop
+	// at once).
+	RouteFP string
+}
+
+// c16RouteFP renders the persisted fields of a route; nil and empty are the
+// same, custom records are ordered by type.
+func c16RouteFP(r *route.Route) string {
+	var sb strings.Builder
+	fmt.Fprintf(&sb, "tl=%d amt=%d src=%x", r.TotalTimeLock, r.TotalAmount,
+		r.SourcePubKey[:4])
+	for _, h := range r.Hops {
+		fmt.Fprintf(&sb, " | %x ch=%d tl=%d amt=%d", h.PubKeyBytes[:4],
+			h.ChannelID, h.OutgoingTimeLock, h.AmtToForward)
+		if h.MPP != nil {
+			a := h.MPP.PaymentAddr()
+			fmt.Fprintf(&sb, " mpp=%d/%x", h.MPP.TotalMsat(), a[:2])
+		}
+		if len(h.EncryptedData) > 0 {
+			fmt.Fprintf(&sb, " enc=%x", h.EncryptedData)
+		}
+		if h.BlindingPoint != nil {
+			fmt.Fprintf(&sb, " bp=%x",
+				h.BlindingPoint.SerializeCompressed()[:6])
+		}
+		if h.TotalAmtMsat != 0 {
+			fmt.Fprintf(&sb, " total=%d", h.TotalAmtMsat)
+		}
+		if len(h.Metadata) > 0 {
+			fmt.Fprintf(&sb, " meta=%x", h.Metadata)
+		}
+		var ks []uint64
+		for k := range h.CustomRecords {
+			ks = append(ks, k)
+		}
+		sort.Slice(ks, func(i, j int) bool { return ks[i] < ks[j] })
+		for _, k := range ks {
+			fmt.Fprintf(&sb, " cr%d=%x", k, h.CustomRecords[k])
+		}
+	}
+
+	return sb.String()
 }
 
 type c16View struct {
@@ -377,10 +447,11 @@ func c16ViewOf(p *paymentsdb.MPPayment) *c16View {
 	}
 	for _, h := range p.HTLCs {
 		a := c16Att{
-			ID:   h.AttemptID,
-			Amt:  int64(h.Route.ReceiverAmt()),
-			Fee:  int64(h.Route.TotalFees()),
-			Kind: c16Plain,
+			ID:      h.AttemptID,
+			Amt:     int64(h.Route.ReceiverAmt()),
+			Fee:     int64(h.Route.TotalFees()),
+			Kind:    c16Plain,
+			RouteFP: c16RouteFP(&h.Route),
 		}
 		if fh := h.Route.FinalHop(); fh != nil {
 			switch {
